@@ -204,7 +204,7 @@ class Safe(Engine):
         """LA.SafeWrite.atomicOk / noTemp evaluated by the Lean driver on the implementation's record."""
         if any(l.startswith('!') for l in impl):
             return 'implementation crashed'
-        if 'free' not in case.ops or 'inplace' in case.ops[0]:
+        if ('free' not in case.ops and 'close' not in case.ops) or 'inplace' in case.ops[0]:
             return None     # without ARCHIVE_EXTRACT_SAFE_WRITES the property makes no claim (contrast cases)
         v = self._verdict.get(case.key(), [])
         if not v:
